@@ -329,7 +329,31 @@ func init() {
 				Ops:     map[string]int{"add": 30, "addall": 6, "close": 25, "purge": 6, "qclose": 3, "wait": 8, "status": 3, "release": 4, "yield": 3, "gwait": 2},
 				Ctrl:    map[string]int{"pause": 3, "resume": 4, "pausewait": 1},
 				MaxCtrl: 3, GatedProb: 30, Outs: []int{OutVal, OutVal, OutErr}, MaxBatch: 4}
-			return genProgram(t, "C10", pf, th)
+			c := genProgram(t, "C10", pf, th)
+			// queue-close scenarios: Close, then any mix of Purge / NumPending / Close again, then submissions
+			if rapid.IntRange(0, 3).Draw(t, "closescenario") == 0 {
+				ci := rapid.IntRange(1, len(c.Clients)-1).Draw(t, "closeclient")
+				q := rapid.IntRange(0, len(c.Cfg.Queues)-1).Draw(t, "closeq")
+				seq := []Op{{Op: "qclose", Q: q}}
+				for i := 0; i < rapid.IntRange(0, 2).Draw(t, "nbetween"); i++ {
+					seq = append(seq, Op{Op: pick(t, "between", []string{"purge", "qpending", "qclose", "yield"}), Q: q})
+				}
+				n := 5000
+				for i := 0; i < rapid.IntRange(1, 3).Draw(t, "nafter"); i++ {
+					n++
+					if rapid.Bool().Draw(t, "afterbatch") {
+						seq = append(seq, Op{Op: "addall", Q: q, G: 900 + i, Items: []Item{{N: n, ID: "c" + itoa(n)}, {N: n + 100, ID: "c" + itoa(n+100)}}})
+					} else {
+						seq = append(seq, Op{Op: "add", Q: q, It: &Item{N: n}})
+					}
+				}
+				pos := rapid.IntRange(0, len(c.Clients[ci])).Draw(t, "closepos")
+				ops := append([]Op{}, c.Clients[ci][:pos]...)
+				ops = append(ops, seq...)
+				ops = append(ops, c.Clients[ci][pos:]...)
+				c.Clients[ci] = ops
+			}
+			return c
 		},
 		Oracles: []oracleFn{oC10},
 		Foreign: []oracleFn{oDeadlock("C03"), oLivelock("C03")},
